@@ -122,6 +122,14 @@ def pl_frame_case(v, arrangement, N, opts):
     req_b = True if opts.get("b_required_concrete", True) else v.bool("req_b")
     ca = O.CheckSpec(opts.get("check_a", "ge"), opts.get("ina", True), a=lo, b=lo)
     cb = O.CheckSpec("isin", True, set=[1, 2, 3])
+    b_default = 1 if opts.get("add_missing") else None
+    if opts.get("expr_default"):
+        # the default is a polars expression whose own dtype (Int32) is narrower than the declared one: the added column has the
+        # declared dtype.  (A WIDER expression, e.g. pl.lit(1.0) for an Int64 column, upcasts the column when the default fills
+        # nulls on the unchanged tree: observed, an unusual declaration, not asserted.)
+        from sympl import PROXY as _plx  # the namespace pandera's own polars code sees (shim or real polars)
+
+        b_default = _plx.lit(1, dtype=real_pl.Int32)
     extra_checks = []
     if opts.get("scalar_check"):  # a check whose output is one boolean for the whole column, next to the row-level check
         flag_s = v.bool("scalar_ok")
@@ -131,7 +139,7 @@ def pl_frame_case(v, arrangement, N, opts):
         schema = ppl.DataFrameSchema(
             {"a": ppl.Column(float, checks=[ca.build(Check)] + extra_checks, nullable=nullable, unique=unique_a, coerce=(coerce == "col"),
                              default=(None if default is None else default)),
-             "b": ppl.Column(int, checks=[cb.build(Check)], required=req_b, default=(1 if opts.get("add_missing") else None)),
+             "b": ppl.Column(int, checks=[cb.build(Check)], required=req_b, default=b_default),
              **({"_rid": ppl.Column(int)} if opts.get("drop") else {})},  # row identifiers are a declared column: they survive filter/add_missing
             strict=opts.get("strict", False), ordered=bool(opts.get("ordered")), coerce=(coerce == "schema"),
             add_missing_columns=bool(opts.get("add_missing")), unique=opts.get("unique"), drop_invalid_rows=bool(opts.get("drop")))
@@ -877,6 +885,7 @@ def parse_cases(tier):
                 for strict in (False, "filter"):
                     for drop in (False, True):
                         combos.append((arr, dict(coerce=coerce, a_kind=a_kind, default=default, add_missing=add_missing, strict=strict, drop=drop)))
+    combos.append((["a"], dict(coerce=None, a_kind="float", default=False, add_missing=True, strict=False, drop=False, expr_default=True)))
     for arr, c in combos:
         n_on = sum([c["coerce"] is not None, c["default"], c["add_missing"], c["strict"] == "filter", c["drop"]])
         if tier == "quick" and n_on > 2:
